@@ -169,8 +169,8 @@ def dateOf (t : Int × Int × Int) : PyRes (Int × Int × ℚ) :=
     let month := if e < 14 then e - 1 else e - 13
     if month > 2 then .ok (c - 4716, month, (day : ℚ))
     else if month = 1 ∨ month = 2 then .ok (c - 4715, month, (day : ℚ))
-    else .error .other
-  else .error .other
+    else .error .valueError
+  else .error .valueError
 
 theorem floor_alpha (z : Int) : pfloor ((ofInt z - 1867216.25) / 36524.25) = (4 * z - 7468865) / 146097 := by
   unfold pfloor ofInt
